@@ -379,7 +379,9 @@ func runOnce(t *testing.T, sc *Scenario, sched detsim.SchedConfig, record bool, 
 		srv.Close()
 		nw.Close()
 		res.faults = srv.FaultCounts()
+		omu.Lock() // a handler of an abandoned (cancelled) request may still be running in free mode
 		res.order = strings.Join(order, ",")
+		omu.Unlock()
 	})
 	res.grids = len(be.grids)
 	res.slices = len(be.starts)
